@@ -16,6 +16,10 @@ CLAIMED = {
         "text": "bounded/full width: writeQuotedString, MarshalString, MarshalID on every byte string up to length 3 (quick) / 4 (thorough) against an independent RFC 8259 + RFC 3629 oracle",
         "design_ref": "DESIGN.md section 4, C08", "note": _N, "technique": _T,
     },
+    "C09": {
+        "text": "bounded: Server.ServeHTTP -> GET/POST/GRAPHQL/UrlEncodedForm transports -> real Executor and gqlparser (interpreted) with an ExecutableSchema fake, over 10 documents x operationName x 9 Accept headers x 4 ResponseHeaders settings, malformed-request corpus, unsupported requests; status, Content-Type, JSON body, 'GET only queries', 'exactly the named operation' asserted on a ResponseWriter fake",
+        "design_ref": "DESIGN.md section 4, C09", "note": _N, "technique": _T,
+    },
     "C10": {
         "text": "bounded: AddUpload over variables trees of depth <=2 x corpus paths; bytesReader from an arbitrary valid state with full-width offsets",
         "design_ref": "DESIGN.md section 4, C10", "note": _N, "technique": _T,
